@@ -56,6 +56,7 @@ type Spec struct {
 	Chunks    []string `json:"chunks"`           // hex
 	Fault     string   `json:"fault"`            // "" | eof | eio : what Read returns after the script
 	Runs      int      `json:"runs"`
+	Editor    string   `json:"editor,omitempty"`  // $EDITOR is a program that: empty | keep | append | fail
 	Persist   string   `json:"persist,omitempty"` // the application shows a persistent hint (Shell.Hint.Persist)
 	Stty      bool     `json:"stty,omitempty"` // the application changes the terminal modes between two calls
 	Patience  int      `json:"patience,omitempty"` // watchdog multiplier (scripts in which macros run macros)
